@@ -93,12 +93,15 @@ func dataFor(p cat.Program, n int) map[string]any {
 
 // call renders program p through entry on the given engines.
 func call(p cat.Program, root vuego.Template, vue *vuego.Vue, entry string, data map[string]any, suffix string) result {
-	return callMode(p, root, vue, entry, data, suffix, false)
+	return callMode(p, root, vue, entry, data, suffix, false, "")
 }
 
 // callMode: with base=true the stateless render methods are called directly on the single shared
 // base template (which was filled once before the concurrent phase), as the statement allows.
-func callMode(p cat.Program, root vuego.Template, vue *vuego.Vue, entry string, data map[string]any, suffix string, base bool) (res result) {
+func callMode(p cat.Program, root vuego.Template, vue *vuego.Vue, entry string, data map[string]any, suffix string, base bool, page string) (res result) {
+	if page == "" {
+		page = "page.vuego"
+	}
 	defer func() {
 		if r := recover(); r != nil {
 			res = result{out: fmt.Sprintf("PANIC in render goroutine: %v", r), err: true, panicked: true}
@@ -110,35 +113,35 @@ func callMode(p cat.Program, root vuego.Template, vue *vuego.Vue, entry string, 
 	if base {
 		switch entry {
 		case "file":
-			err = root.RenderFile(ctx, &buf, "page.vuego")
+			err = root.RenderFile(ctx, &buf, page)
 			return result{out: buf.String(), err: err != nil}
 		case "string":
-			err = root.RenderString(ctx, &buf, p.Files["page.vuego"]+suffix)
+			err = root.RenderString(ctx, &buf, p.Files[page]+suffix)
 			return result{out: buf.String(), err: err != nil}
 		case "reader":
-			err = root.RenderReader(ctx, &buf, strings.NewReader(p.Files["page.vuego"]+suffix))
+			err = root.RenderReader(ctx, &buf, strings.NewReader(p.Files[page]+suffix))
 			return result{out: buf.String(), err: err != nil}
 		case "load":
-			err = root.Load("page.vuego").Render(ctx, &buf)
+			err = root.Load(page).Render(ctx, &buf)
 			return result{out: buf.String(), err: err != nil}
 		}
 	}
 	switch entry {
 	case "load":
-		err = root.Load("page.vuego").Fill(data).Render(ctx, &buf)
+		err = root.Load(page).Fill(data).Render(ctx, &buf)
 	case "assign":
 		// per-request values assigned on top of (possibly shared, read-only) site data
-		err = root.Load("page.vuego").Fill(data).Assign("reqid", "r"+suffix).Assign("unum", 1).Render(ctx, &buf)
+		err = root.Load(page).Fill(data).Assign("reqid", "r"+suffix).Assign("unum", 1).Render(ctx, &buf)
 	case "file":
-		err = root.New().Fill(data).RenderFile(ctx, &buf, "page.vuego")
+		err = root.New().Fill(data).RenderFile(ctx, &buf, page)
 	case "string":
-		err = root.New().Fill(data).RenderString(ctx, &buf, p.Files["page.vuego"]+suffix)
+		err = root.New().Fill(data).RenderString(ctx, &buf, p.Files[page]+suffix)
 	case "reader":
-		err = root.New().Fill(data).RenderReader(ctx, &buf, strings.NewReader(p.Files["page.vuego"]+suffix))
+		err = root.New().Fill(data).RenderReader(ctx, &buf, strings.NewReader(p.Files[page]+suffix))
 	case "vue":
-		err = vue.Render(&buf, "page.vuego", data)
+		err = vue.Render(&buf, page, data)
 	case "frag":
-		err = vue.RenderFragment(&buf, "page.vuego", data)
+		err = vue.RenderFragment(&buf, page, data)
 	default:
 		return result{out: "unknown entry " + entry, err: true}
 	}
@@ -230,12 +233,12 @@ func newWorld(name string, c Case) (*world, error) {
 
 // soloResults computes what each call returns when run alone on a fresh engine, for the
 // current files and (if a writer is active) for the B version of the rewritten file.
-func soloResults(w *world, c Case, entry string, g int) []result {
+func soloResults(w *world, c Case, entry string, g int, page string) []result {
 	suffix := ""
 	if c.Unique && (entry == "string" || entry == "reader") {
 		suffix = uniqueSuffix(g)
 	}
-	key := entry + "|" + suffix
+	key := entry + "|" + suffix + "|" + page
 	if r, ok := w.solo[key]; ok {
 		return r
 	}
@@ -263,7 +266,7 @@ func soloResults(w *world, c Case, entry string, g int) []result {
 		if c.NilData {
 			soloData = nil
 		}
-		out = append(out, callMode(pp, root, pp.NewVue(fsys), entry, soloData, suffix, c.BaseTpl))
+		out = append(out, callMode(pp, root, pp.NewVue(fsys), entry, soloData, suffix, c.BaseTpl, page))
 	}
 	w.solo[key] = out
 	return out
@@ -301,6 +304,7 @@ func check(c Case) error {
 		entry  string
 		suffix string
 		allow  []result // unused; expected results are computed after the run
+		page   string   // "" = page.vuego; the program's Alt page for every other call of a site that has one
 	}
 	var jobs []job
 	for _, w := range worlds {
@@ -316,7 +320,11 @@ func check(c Case) error {
 				}
 				// expected results are computed AFTER the concurrent phase, so that the
 				// process-global caches (parsed paths) are still cold when the goroutines start
-				jobs = append(jobs, job{w, g, entry, suffix, nil})
+				page := ""
+				if w.p.Alt != "" && (g+r)%2 == 1 && (entry == "load" || entry == "file" || entry == "assign" || entry == "vue" || entry == "frag") {
+					page = w.p.Alt
+				}
+				jobs = append(jobs, job{w, g, entry, suffix, nil, page})
 			}
 		}
 	}
@@ -327,7 +335,7 @@ func check(c Case) error {
 		for _, w := range worlds {
 			for _, e := range c.Entries {
 				if applicable(w.p, e) {
-					callMode(w.p, w.root, w.vue, e, dataFor(w.p, c.N), "", c.BaseTpl)
+					callMode(w.p, w.root, w.vue, e, dataFor(w.p, c.N), "", c.BaseTpl, "")
 				}
 			}
 		}
@@ -378,7 +386,7 @@ func check(c Case) error {
 						break
 					}
 				}
-				got := callMode(j.w.p, j.w.root, j.w.vue, j.entry, data, j.suffix, c.BaseTpl)
+				got := callMode(j.w.p, j.w.root, j.w.vue, j.entry, data, j.suffix, c.BaseTpl, j.page)
 				atomic.AddInt32(&inflight, -1)
 				mu.Lock()
 				observed = append(observed, obs{j, got})
@@ -472,7 +480,7 @@ func check(c Case) error {
 			failures = append(failures, fmt.Sprintf("program %s, goroutine %d, entry %s: output contains text of ANOTHER (failed) render: %v", o.j.w.p.Name, o.j.g, o.j.entry, o.got))
 			continue
 		}
-		allow := soloResults(o.j.w, c, o.j.entry, o.j.g)
+		allow := soloResults(o.j.w, c, o.j.entry, o.j.g, o.j.page)
 		ok := false
 		for _, a := range allow {
 			if a == o.got {
@@ -480,7 +488,7 @@ func check(c Case) error {
 			}
 		}
 		if !ok {
-			failures = append(failures, fmt.Sprintf("program %s, goroutine %d, entry %s: concurrent call returned %v, alone it returns %v", o.j.w.p.Name, o.j.g, o.j.entry, o.got, allow))
+			failures = append(failures, fmt.Sprintf("program %s, goroutine %d, entry %s %s: concurrent call returned %v, alone it returns %v", o.j.w.p.Name, o.j.g, o.j.entry, o.j.page, o.got, allow))
 		}
 	}
 	if len(failures) > 0 {
